@@ -20,7 +20,7 @@ import prog  # noqa
 import progcommon as P  # noqa
 from lib import f32  # noqa
 
-MODULES = ["InovesaModel.Props.C05", "InovesaModel.Props.TieMain", "InovesaModel.Props.TieDrift", "InovesaModel.Props.TieEF", "InovesaModel.Props.TiePhysics"]
+MODULES = ["InovesaModel.Props.C05", "InovesaModel.Props.TieMain", "InovesaModel.Props.TieDrift", "InovesaModel.Props.TieEF", "InovesaModel.Props.TiePhysics", "InovesaModel.Props.TieWake"]
 LEVEL = "proof"
 
 
